@@ -813,7 +813,9 @@ def mon_c06(h, o, nwf, keys):
             lf = last_filter.get((op["ns"], op["name"]))
             node = st.get("node", op["node"])
             sp = lister_spec(prev, specs, op["ns"], op["name"])
-            fresh = lf is not None and node in lf[1] and sp is not None and sp["Uid"] == st.get("uid")
+            pending = any(p[0] == op["ns"] and p[1] == op["name"] and p[2] == st.get("uid") and p[4] == "" and p[3] not in (2, 3)
+                          for p in prev["pods"])         # the property speaks about a pod the scheduler can still bind
+            fresh = lf is not None and node in lf[1] and sp is not None and sp["Uid"] == st.get("uid") and pending
             if fresh:
                 tags = []
                 key = pod_key(sp)
